@@ -343,7 +343,7 @@ func stepKind(st operator.OpStep) string {
 
 // judgeSteps evaluates oracles (A), (B), (C) on one proposed operator. checkerName is "replica-checker"
 // or "rule-checker"; via is "direct" (Check) or "controller" (CheckRegion).
-func (c *caseCtx) judgeSteps(s *stats, checkerName, via, desc, opString string, steps []operator.OpStep) {
+func (c *caseCtx) judgeSteps(s *stats, checkerName, via, desc, opString string, steps []operator.OpStep) (final *sim.Region) {
 	w := c.k.World
 	var kinds, stepStrings []string
 	for _, st := range steps {
@@ -358,7 +358,7 @@ func (c *caseCtx) judgeSteps(s *stats, checkerName, via, desc, opString string, 
 		if k == "SplitRegion" || k == "MergeRegion" {
 			// a range fix / merge is not a replica repair: nothing of the statement applies
 			s.count("operators_split_or_merge_not_judged", 1)
-			return
+			return nil
 		}
 	}
 
@@ -591,13 +591,14 @@ func (c *caseCtx) judgeSteps(s *stats, checkerName, via, desc, opString string, 
 	// ---- (B) shrinking
 	if !replayOK {
 		s.count("final_state_not_judged_replay_refused", 1)
-		return
+		return nil
 	}
+	final = reg
 	h0, h1 := c.healthy(c.origin), c.healthy(reg)
 	p0, p1 := len(c.origin.Peers), len(reg.Peers)
 	if p1 >= p0 && h1 >= h0 {
 		s.count("final_states_judged", 1)
-		return
+		return final
 	}
 	allowed, why := false, ""
 	if !c.rulesOn() {
@@ -618,7 +619,7 @@ func (c *caseCtx) judgeSteps(s *stats, checkerName, via, desc, opString string, 
 	if allowed {
 		s.count("final_states_judged", 1)
 		s.count("shrinks_allowed_excess_or_orphan", 1)
-		return
+		return final
 	}
 	if p1 < p0 {
 		report("shrinks-region-without-excess", fmt.Sprintf("the operator takes the region from %d to %d peers although %s", p0, p1, why), map[string]interface{}{"final": reg.Describe()})
@@ -626,6 +627,7 @@ func (c *caseCtx) judgeSteps(s *stats, checkerName, via, desc, opString string, 
 		report("lowers-healthy-peers-without-excess", fmt.Sprintf("the operator takes the region from %d to %d healthy peers (on an up store, not down, not pending) although %s", h0, h1, why), map[string]interface{}{"final": reg.Describe()})
 	}
 	_ = shape
+	return final
 }
 
 // freshStore: an up, connected, completely empty store without load, without any label besides its
@@ -671,7 +673,10 @@ func (c *caseCtx) freshStore(v *storeView) tri {
 // ambiguous location comparison; no = premise not met (reason says why).
 func (c *caseCtx) repairRequired(via string) (res tri, reason string, need string, fresh uint64) {
 	w := c.k.World
-	if via == "controller" && w.ReplicaScheduleLimit <= 0 {
+	if c.origin.LeaderStore == 0 {
+		return no, "region_without_leader", "", 0
+	}
+	if strings.HasPrefix(via, "controller") && w.ReplicaScheduleLimit <= 0 {
 		return no, "replica_schedule_limit_zero", "", 0
 	}
 	var cons [][]placement.LabelConstraint
